@@ -143,9 +143,14 @@ func main() {
 					for id := range mayWriteKeys(w.prog, fn) {
 						ws = append(ws, id)
 					}
+					var os2 []string
+					for id := range mayWriteOldKeys(w.prog, fn) {
+						os2 = append(os2, id)
+					}
+					sort.Strings(os2)
 					sort.Strings(rs)
 					sort.Strings(ws)
-					fmt.Println(n, "\n  reads:", rs, "\n  writes:", ws)
+					fmt.Println(n, "\n  reads:", rs, "\n  writes:", ws, "\n  writes-to-preexisting:", os2)
 				}
 			}
 		default:
